@@ -4,12 +4,14 @@ import random
 
 from harness import corecheck, gen, mc, report
 
+# (names that are textual prefixes of their siblings - 'a' / 'ab', 'a/b' / 'a/bk' - separate "ancestor" from "string prefix")
 TREE = {
-    "d": [["R"], ["R", "a"], ["R", "a", "b"], ["R", "a", "b", "k"], ["R", "c"]],
+    "d": [["R"], ["R", "a"], ["R", "a", "b"], ["R", "a", "b", "k"], ["R", "c"], ["R", "ab"], ["R", "a", "bk"]],
     "f": [{"p": ["R", "f"], "c": [1]}, {"p": ["R", "a", "f"], "c": [2, 2]}, {"p": ["R", "a", "b", "f"], "c": [3, 3, 3]},
-          {"p": ["R", "c", "f"], "c": [4]}, {"p": ["R", "a", "b", "k", "f"], "c": [5]}],
+          {"p": ["R", "c", "f"], "c": [4]}, {"p": ["R", "a", "b", "k", "f"], "c": [5]}, {"p": ["R", "ab", "f"], "c": [6]},
+          {"p": ["R", "a", "bk", "f"], "c": [7]}],
 }
-PATHS = [[], ["a"], ["a", "b"], ["c"], ["a", "b", "k"]]
+PATHS = [[], ["a"], ["a", "b"], ["c"], ["a", "b", "k"], ["ab"], ["a", "bk"]]
 
 
 def P(p, r, w):
@@ -24,6 +26,8 @@ TABLES = {
     "empty": [],
     "unordered": [P(["a", "b"], False, False), P([], True, True), P(["c"], False, True)],
     "write-only-child": [P([], True, True), P(["a"], False, True)],
+    "closed-a-open-siblings": [P([], True, True), P(["a"], False, False), P(["a", "b"], True, False)],
+    "open-a-closed-root": [P([], False, False), P(["a"], True, True), P(["a", "b"], False, False)],
 }
 
 
